@@ -254,7 +254,8 @@ class DataFrameToTensorFrameConverter:
         elif stype == torch_frame.sequence_numerical:
             return NumericalSequenceTensorMapper()
         elif stype == torch_frame.embedding:
-            return EmbeddingTensorMapper()
+            return EmbeddingTensorMapper(
+                emb_dim=self.col_stats[col].get(StatType.EMB_DIM))
         else:
             raise NotImplementedError(f"Unable to process the semantic "
                                       f"type '{stype.value}'")
